@@ -62,7 +62,9 @@ def required(tier):
     b.update({f'form:{k}': 20 for k in FORMS})
     b.update({f'antennas:{k}': 10 for k in range(1, 7)})
     b.update({'pols:1': 50, 'pols:2': 50, 'request==maxdelay+1:later': 20, 'request==maxdelay+1:first': 20,
-              'delays:first-antenna-not-max': 20, 'delays:not-palindromic': 20, 'maxdelay>=100': 10})
+              'delays:first-antenna-not-max': 20, 'delays:not-palindromic': 20, 'maxdelay>=100': 10,
+              'delays:caller-container-changed-after-construction:ndarray': 30,
+              'delays:caller-container-changed-after-construction:list': 30})
     return {'buckets': b,
             'counters': {'requests_checked': 1500, 'later_requests_with_carry': 300, 'observations_after_clock_op': 200,
                          'cache_state_checks': 200, 'samples_compared': 200000, 'y_later_requests_with_carry': 100},
@@ -149,11 +151,11 @@ def gen_cases(seed, tier):
     n = 2304 if tier == 'quick' else 414720
     cases = []
     for i in range(n):
-        dcls = DELAY_CLASSES[i % 9]
-        npol = 1 + (i // 9) % 2
-        bgk = BG_KINDS[(i // 18) % 4]
-        ownk = OWN_KINDS[(i // 72) % 4]
-        big = tier == 'thorough' and i % 41 == 0
+        dcls = common.stratum(i, 151, DELAY_CLASSES)
+        npol = 1 + common.stratum(i, 152, 2)
+        bgk = common.stratum(i, 153, BG_KINDS)
+        ownk = common.stratum(i, 154, OWN_KINDS)
+        big = tier == 'thorough' and common.stratum(i, 155, 41) == 0
         na = int(rng.integers(1, 7))
         if dcls in ('sorted', 'descending', 'unsorted', 'repeated') and na < 2:
             na = int(rng.integers(2, 7))
@@ -179,7 +181,7 @@ def gen_cases(seed, tier):
                 else:
                     ops.append(_clock_op(rng, clock, t0))
             gets = [['get', m] for m in _partition(rng, part, D, big)]
-            if bgk == 'coded' and len(gets) >= 2 and i % 3 == 0:
+            if bgk == 'coded' and len(gets) >= 2 and common.stratum(i, 156, 3) == 0:
                 # between two requests of one observation the shared background re-estimates its noise level (the stream draws a
                 # throw-away block and restores its clock): what the antennas carry over must not be affected
                 at = int(rng.integers(1, len(gets)))
@@ -267,6 +269,13 @@ def run_case(c, R):
         raise
     R.check(True, 'delays-none')
     pre = 'delays-none:' if omitted else ''
+    # the configured delays are the ones given AT CONSTRUCTION: what the caller does with its own container afterwards (reuse it
+    # for the next array, sort it, zero it) must not reach this array -- neither now nor at the next clock operation
+    given = dkw.get('delays')
+    if isinstance(given, (list, np.ndarray)) and c['seed'] % 3 != 0:
+        for q in range(len(given)):
+            given[q] = int(given[q]) + 1 + ((q * 7 + c['seed']) % 5)
+        R.bucket('delays:caller-container-changed-after-construction:' + type(given).__name__)
 
     # same-seed twin: only its streams are used, each driven stand-alone
     twin = _build(stg, c, {'delays': [0] * na})
